@@ -1111,9 +1111,9 @@ class MessageBuffer(object):
         :param pos: the position of the event in the source
         """
         if kind is SUB:
-            # The order needs to be +1 because a new START kind event will
-            # happen and we we need to wrap those events into our custom kind(s)
-            order = self.stack[-1] + 1
+            # The order is the one the START event of the substream is going to
+            # get, as we need to wrap those events into our custom kind(s)
+            order = self.order
             subdirectives, substream = data
             # Store the directives that should be applied after translation
             self.subdirectives.setdefault(order, []).extend(subdirectives)
